@@ -4,7 +4,35 @@ use vcore::{parse_args, Run};
 #[global_allocator]
 static ALLOC: CountingAlloc = CountingAlloc;
 
+fn dump_seeds(dir: &str) {
+    use std::io::Write;
+    let write = |target: &str, name: String, bytes: &[u8]| {
+        let d = format!("{dir}/{target}");
+        let _ = std::fs::create_dir_all(&d);
+        if let Ok(mut f) = std::fs::File::create(format!("{d}/{name}")) {
+            let _ = f.write_all(bytes);
+        }
+    };
+    for (i, g) in pchecks::c11::golden().iter().enumerate() {
+        write("c11_decode", format!("golden-{i:02}"), g);
+        let mut v = vec![2u8, 1, 3, 1, 1, 0, 0, 0];
+        v.extend_from_slice(g);
+        write("c15_paths", format!("golden-{i:02}"), &v);
+    }
+    for i in 0..32u8 {
+        let seed: Vec<u8> = (0..96u32).map(|k| (k as u8).wrapping_mul(31).wrapping_add(i.wrapping_mul(17))).collect();
+        let mut a = vec![i];
+        a.extend_from_slice(&seed);
+        write("c13_insert", format!("seed-{i:02}"), &a);
+        write("c14_roundtrip", format!("seed-{i:02}"), &a);
+    }
+}
+
 fn main() {
+    if std::env::args().nth(1).as_deref() == Some("SEEDS") {
+        dump_seeds(&std::env::args().nth(2).unwrap_or_else(|| "/verif/fuzz/seeds".into()));
+        return;
+    }
     let args = parse_args();
     vcore::install_panic_hook();
     let run = Run::new(&args, "exploration");
@@ -24,7 +52,28 @@ fn main() {
             std::process::exit(2);
         }
     };
+    if id == "SEEDS" {
+        unreachable!();
+    }
     if let Some(doc) = run.replay_doc() {
+        if let Some(target) = doc["check"].as_str().and_then(|c| c.strip_prefix("fuzz:")) {
+            let data = doc["case"]["hex"].as_str().and_then(vcore::unhex).unwrap_or_default();
+            run.eval("fuzz-replay", true, 1);
+            match vcore::catch(|| pchecks::fuzzglue::replay(target, &data)) {
+                Ok(Some(Ok(()))) => {}
+                Ok(Some(Err((sig, msg)))) => {
+                    run.fail(&format!("fuzz:{target}"), &sig, &msg, doc["case"].clone());
+                }
+                Ok(None) => {
+                    eprintln!("pcheck: unknown fuzz target {target}");
+                    std::process::exit(2);
+                }
+                Err(p) => {
+                    run.fail(&format!("fuzz:{target}"), &format!("{id}:panic"), &p, doc["case"].clone());
+                }
+            }
+            std::process::exit(run.finish());
+        }
         if !replay_fn(&run, &doc) {
             eprintln!("pcheck: replay file not understood by {id}");
             std::process::exit(2);
